@@ -165,7 +165,10 @@ def concatenate(arrays, axis=0):
 
     arrays = [x if isinstance(x, COO) else COO(x) for x in arrays]
     axis = normalize_axis(axis, arrays[0].ndim)
-    assert all(x.shape[ax] == arrays[0].shape[ax] for x in arrays for ax in set(range(arrays[0].ndim)) - {axis})
+    if any(x.ndim != arrays[0].ndim for x in arrays):
+        raise ValueError("all the input arrays must have the same number of dimensions")
+    if any(x.shape[ax] != arrays[0].shape[ax] for x in arrays for ax in set(range(arrays[0].ndim)) - {axis}):
+        raise ValueError("all the input array dimensions except for the concatenation axis must match exactly")
     nnz = 0
     dim = sum(x.shape[axis] for x in arrays)
     shape = list(arrays[0].shape)
@@ -222,7 +225,8 @@ def stack(arrays, axis=0):
 
     check_consistent_fill_value(arrays)
 
-    assert len({x.shape for x in arrays}) == 1
+    if len({x.shape for x in arrays}) != 1:
+        raise ValueError("all input arrays must have the same shape")
     arrays = [x if isinstance(x, COO) else COO(x) for x in arrays]
     axis = normalize_axis(axis, arrays[0].ndim + 1)
     data = np.concatenate([x.data for x in arrays])
